@@ -275,7 +275,7 @@ func zxFold(e Expr, pts []*zxPoint) []byte {
 	return buf[:w:w]
 }
 
-//zx:harness prop=C01+C05 id=E.A tier=quick mode=real shard=spec:26,k:3 K=2 thorough.K=3 thorough.shard=spec:26,k:4
+//zx:harness prop=C01+C05 id=E.A tier=quick mode=real shard=spec:26 K=2 thorough.K=3
 func zxC05Accumulators() {
 	specs := zxSpecs()
 	s := specs[vrtShape("spec", len(specs))]
